@@ -14,6 +14,7 @@ import (
 	"os"
 	"sort"
 	"sync"
+	"sync/atomic"
 	"syscall"
 	"time"
 )
@@ -29,6 +30,7 @@ type Net struct {
 	conns     []*Conn
 	nextConn  int
 	Stats     map[string]int
+	Gated     bool // Accept waits for GrantAccept (set by the simulator before anything listens)
 }
 
 func New() *Net { return &Net{listeners: map[string]*Listener{}, Stats: map[string]int{}} }
@@ -39,6 +41,11 @@ type Listener struct {
 	q      chan *end
 	closed chan struct{}
 	once   sync.Once
+	// accept gate (Net.Gated): Accept hands out a connection only after the simulator granted a permit, one
+	// per quiescence, so that the goroutines net/http starts for two backlogged connections never run
+	// side by side up to their first yield (their arrival order there would be the Go scheduler's choice)
+	permit  chan struct{}
+	waiting atomic.Int32
 }
 
 var ErrAddrInUse = &net.OpError{Op: "listen", Net: "sim", Err: os.NewSyscallError("bind", syscall.EADDRINUSE)}
@@ -49,7 +56,7 @@ func (n *Net) Listen(addr string) (*Listener, error) {
 	if _, ok := n.listeners[addr]; ok {
 		return nil, ErrAddrInUse
 	}
-	l := &Listener{n: n, addr: addr, q: make(chan *end, 64), closed: make(chan struct{})}
+	l := &Listener{n: n, addr: addr, q: make(chan *end, 64), closed: make(chan struct{}), permit: make(chan struct{}, 1)}
 	n.listeners[addr] = l
 	return l, nil
 }
@@ -62,7 +69,37 @@ func (n *Net) Bound(addr string) bool {
 	return ok
 }
 
+// GrantAccept lets one waiting Accept (listeners in address order) take one queued connection. It
+// reports whether a permit was granted; the caller waits for quiescence and asks again.
+func (n *Net) GrantAccept() bool {
+	n.mu.Lock()
+	defer n.mu.Unlock()
+	addrs := make([]string, 0, len(n.listeners))
+	for a := range n.listeners {
+		addrs = append(addrs, a)
+	}
+	sort.Strings(addrs)
+	for _, a := range addrs {
+		l := n.listeners[a]
+		if l.waiting.Load() > 0 && len(l.q) > 0 && len(l.permit) == 0 {
+			l.permit <- struct{}{}
+			return true
+		}
+	}
+	return false
+}
+
 func (l *Listener) Accept() (net.Conn, error) {
+	if l.n.Gated {
+		l.waiting.Add(1)
+		select {
+		case <-l.permit:
+			l.waiting.Add(-1)
+		case <-l.closed:
+			l.waiting.Add(-1)
+			return nil, net.ErrClosed
+		}
+	}
 	select {
 	case e := <-l.q:
 		e.c.mu.Lock()
